@@ -62,7 +62,7 @@ pub fn run_client(db: &DB, rec: &Recorder, thread: u32, ops: &[COp], rng: &mut R
             COp::Put(k) => {
                 let v = unique_value(thread, &mut counter, rng, value_len);
                 let c = rec.call();
-                let r = db.put(WriteOptions::default(), k.clone(), v.clone());
+                let r = db.put(WriteOptions { synchronous: rng.chance(0.3) }, k.clone(), v.clone());
                 let t = rec.ret();
                 match r {
                     Ok(()) => rec.write(thread, k, Some(v), c, t, ""),
@@ -74,7 +74,7 @@ pub fn run_client(db: &DB, rec: &Recorder, thread: u32, ops: &[COp], rng: &mut R
             }
             COp::Delete(k) => {
                 let c = rec.call();
-                let r = db.delete(WriteOptions::default(), k.clone());
+                let r = db.delete(WriteOptions { synchronous: rng.chance(0.3) }, k.clone());
                 let t = rec.ret();
                 match r {
                     Ok(()) => rec.write(thread, k, None, c, t, ""),
@@ -98,7 +98,7 @@ pub fn run_client(db: &DB, rec: &Recorder, thread: u32, ops: &[COp], rng: &mut R
                     }
                 }
                 let c = rec.call();
-                let r = db.apply(WriteOptions::default(), batch);
+                let r = db.apply(WriteOptions { synchronous: rng.chance(0.3) }, batch);
                 let t = rec.ret();
                 let ok = r.is_ok();
                 if !ok {
